@@ -69,6 +69,9 @@ class RequestChannelCommon(StreamHandler, Publisher, Subscription, Disposable, m
                 logger().warning('%s: Received request_n but no publisher provided', self.__class__.__name__)
 
         elif isinstance(frame, PayloadFrame):
+            if self._received_complete:
+                return  # cancelled locally or already completed: nothing more is delivered to the subscriber
+
             if frame.flags_next:
                 self.remote_subscriber.on_next(payload_from_frame(frame),
                                                is_complete=frame.flags_complete)
@@ -78,7 +81,9 @@ class RequestChannelCommon(StreamHandler, Publisher, Subscription, Disposable, m
             if frame.flags_complete:
                 self.mark_completed_and_finish(received=True)
         elif isinstance(frame, ErrorFrame):
-            self.remote_subscriber.on_error(error_frame_to_exception(frame))
+            if not self._received_complete and self.remote_subscriber is not None:
+                self.remote_subscriber.on_error(error_frame_to_exception(frame))
+
             self.mark_completed_and_finish(received=True)
 
     def dispose(self):
